@@ -102,8 +102,8 @@ impl Prop for C08 {
     }
     fn cases(&self, tier: Tier, build: &str) -> u32 {
         match (tier, build) {
-            (Tier::Quick, "fast") => 16_000,
-            (Tier::Quick, _) => 6_000,
+            (Tier::Quick, "fast") => 48_000,
+            (Tier::Quick, _) => 18_000,
             (Tier::Thorough, "fast") => 300_000,
             (Tier::Thorough, _) => 100_000,
         }
